@@ -104,6 +104,10 @@ PROBES = {
     "47c00": "\tcpu 47c00\n\tsegment data\nv:\tds 2\nw:\tds 1\n\tsegment code\n\tld a,w\n",
     "avr": "\tcpu at90s8515\n\tsegment data\nv:\tres 2\nw:\tres 1\n\tsegment code\n\tlds r1,w\n",
     "c166": "\tcpu 80c167\n\tmov r1,8120h\n\tmov r2,0f120h\n\tmov 0fe10h,r3\n\tmov r4,0c000h\n\tadd r1,0f000h\n",
+    # DW / DB aliases of the Motorola-syntax targets as the first data statement of the source
+    "6809dw": "\tcpu 6809\n\tlda #1\n\tdw $1234,$5678\n\tdb 1\n\tnop\n", "6800dw": "\tcpu 6800\n\tnop\n\tdw $1234\n\tdb 2\n",
+    "6805dw": "\tcpu 6805\n\tnop\n\tdw $1234\n", "hc12dw": "\tcpu 68hc12\n\tnop\n\tdw $1234\n", "hc16dw": "\tcpu 68hc16\n\tnop\n\tdw $1234\n",
+    "rs08dw": "\tcpu 68rs08\n\tnop\n\tdw $1234\n", "6804dw": "\tcpu 6804\n\tnop\n\tdw $1234\n",
     "st6": "\tcpu st6210\n\tword 1234h,5678h\n\tbyte 1\n\tascii \"ab\"\n\tld a,12h\n",
     "6805": "\tcpu 6805\n\tfdb $1234\n\tdw $5678\n\tlda $12\n\tlda $1234\n",
     "6811": "\tcpu 6811\n\tfdb $1234\n\tdw $5678\n\tadr $9abc\n\tldaa $12\n\tldaa $1234\n",
